@@ -2,7 +2,7 @@
    a case is an operation name and a list of generic arguments; the answer is a generic
    output value.  The OCaml driver (eval/driver.ml) only parses / prints these types. *)
 From Coq Require Import String.
-From ArrRs Require Import Base Arr Index Axis Broadcast Lift.
+From ArrRs Require Import Base Arr Index Axis Broadcast Lift Split Reduce.
 Open Scope string_scope.
 Open Scope list_scope.
 
@@ -255,8 +255,75 @@ Definition table_ops : list (string * (list arg -> out)) :=
        | _ => OBad end)
   ].
 
+(* ---- C08: axis-wise reductions and scans ---- *)
+Definition zred (g1 : list Z -> res Z) (args : list arg) : out :=
+  match args with
+  | [AA s e; ax] => match optz ax with Some ax => orarr (reduce 0%Z g1 (mka s e) ax) | None => OBad end
+  | _ => OBad end.
+Definition zscan (g : list Z -> list Z) (args : list arg) : out :=
+  match args with
+  | [AA s e; ax] => match optz ax with Some ax => orarr (scan 0%Z g (mka s e) ax) | None => OBad end
+  | _ => OBad end.
+Definition onarr (a : arr nat) : out := OArr (shape a) (zs (elems a)).
+Definition zidx (g1 : list Z -> res nat) (args : list arg) : out :=
+  match args with
+  | [AA s e; ax; AZ kd] =>
+    match optz ax with Some ax => out_res onarr (index_reduce 0%Z 0 g1 (mka s e) ax (kd =? 1)%Z) | None => OBad end
+  | _ => OBad end.
+Definition z_argmax1 (l : list Z) : res nat :=
+  let* m := z_max1 l in match position (Z.eqb m) l with Some i => Ok i | None => Panic end.
+Definition z_argmin1 (l : list Z) : res nat :=
+  let* m := z_min1 l in match position (Z.eqb m) l with Some i => Ok i | None => Panic end.
+(* lanes as numbers: the flat input positions of a lane in base 1000 (most significant = first position) *)
+Definition encode_lane (l : list Z) : Z := fold_left (fun acc x => acc * 1000 + x + 1)%Z l 0%Z.
+Definition iota_like (s e : list Z) : arr Z := mk (zs (seq 0 (List.length e))) (nats s).
+
+Definition table_reduce : list (string * (list arg -> out)) :=
+  [ ("sum", zred (fun l => Ok (z_sum1 l))); ("nansum", zred (fun l => Ok (z_sum1 l)))
+  ; ("prod", zred (fun l => Ok (z_prod1 l))); ("nanprod", zred (fun l => Ok (z_prod1 l)))
+  ; ("max", zred z_max1); ("amax", zred z_max1); ("min", zred z_min1); ("amin", zred z_min1)
+  (* nanmax / nanmin of an empty integer array: "all elements are NaN" holds vacuously and NaN casts to 0 *)
+  ; ("nanmax", zred (fun l => match l with [] => Ok 0%Z | _ => z_max1 l end))
+  ; ("nanmin", zred (fun l => match l with [] => Ok 0%Z | _ => z_min1 l end))
+  ; ("cumsum", zscan z_cumsum1); ("nancumsum", zscan z_cumsum1)
+  ; ("cumprod", zscan z_cumprod1); ("nancumprod", zscan z_cumprod1)
+  ; ("count_nonzero", zidx z_count_nonzero1); ("argmax", zidx z_argmax1); ("argmin", zidx z_argmin1)
+  ; ("lanered", fun args => match args with
+       | [AS _; AA s e; ax] => match optz ax with
+           | Some ax => orarr (reduce 0%Z (fun l => Ok (encode_lane l)) (iota_like s e) ax) | None => OBad end
+       | _ => OBad end)
+  ; ("laneidx", fun args => match args with
+       | [AS _; AA s e; ax; AZ kd] => match optz ax with
+           | Some ax => orarr (index_reduce 0%Z 0%Z (fun l => Ok (encode_lane l)) (iota_like s e) ax (kd =? 1)%Z)
+           | None => OBad end
+       | _ => OBad end)
+  ; ("lanescan", fun args => match args with
+       | [AS _; AA s e; ax] => match optz ax with
+           | Some ax => orarr (scan 0%Z (fun l => map (fun k => (encode_lane l * 1000 + Z.of_nat k)%Z) (seq 0 (List.length l)))
+                                    (iota_like s e) ax)
+           | None => OBad end
+       | _ => OBad end)
+  ; ("lane1", fun _ => OZ 0%Z)
+  ; ("array_split", fun args => match args with
+       | [AA s e; AZ parts; ax] => match optn ax with
+           | Some ax => out_res oarrs (array_split 0%Z (mka s e) (Z.to_nat parts) ax) | None => OBad end
+       | _ => OBad end)
+  ; ("split", fun args => match args with
+       | [AA s e; AZ parts; ax] => match optn ax with
+           | Some ax => out_res oarrs (split_even 0%Z (mka s e) (Z.to_nat parts) ax) | None => OBad end
+       | _ => OBad end)
+  ; ("split_axis", fun args => match args with
+       | [AA s e; AZ ax] => out_res oarrs (split_axis 0%Z (mka s e) (Z.to_nat ax)) | _ => OBad end)
+  ; ("hsplit", fun args => match args with
+       | [AA s e; AZ parts] => out_res oarrs (hsplit 0%Z (mka s e) (Z.to_nat parts)) | _ => OBad end)
+  ; ("vsplit", fun args => match args with
+       | [AA s e; AZ parts] => out_res oarrs (vsplit 0%Z (mka s e) (Z.to_nat parts)) | _ => OBad end)
+  ; ("dsplit", fun args => match args with
+       | [AA s e; AZ parts] => out_res oarrs (dsplit 0%Z (mka s e) (Z.to_nat parts)) | _ => OBad end)
+  ].
+
 Definition table : list (string * (list arg -> out)) :=
-  table_index ++ table_axis ++ table_broadcast ++ table_ew2 ++ table_ew1 ++ table_ops.
+  table_index ++ table_axis ++ table_broadcast ++ table_ew2 ++ table_ew1 ++ table_ops ++ table_reduce.
 
 Fixpoint lookup (name : string) (t : list (string * (list arg -> out))) : option (list arg -> out) :=
   match t with
